@@ -8,21 +8,15 @@ open XC
 /-! ## 1. wildcardMatch versus the glob language
 
 `Glob p s` is the OpenSSH pattern language (`*` = any sequence, possibly empty; `?` = any one byte).
-Go's `wildcardMatch` tests `len(str) == 0` BEFORE it looks at a `*`, so a `*` that is the last pattern
-byte needs at least one byte: the function decides exactly the glob language of `goPattern p`
-(`p` with a `?` appended when `p` ends in `*`).  `wildcard_spec` is that statement for all inputs;
-`wildcard_trailing_star_gap` is the witness that this is NOT `Glob p` itself. -/
+`wildcard_spec`: Go's `wildcardMatch` decides exactly that language, for every pattern and string.
+(Before the fix "a trailing '*' matches the empty string" the function tested `len(str) == 0` before
+looking at a `*`; `host*` then failed to match `host` — the two examples below pin the fixed behaviour.) -/
 
 inductive Glob : Bytes → Bytes → Prop
   | nil : Glob [] []
   | star {ps s t : Bytes} (u : Bytes) : t = u ++ s → Glob ps s → Glob (cSTAR :: ps) t
   | qm {ps s : Bytes} (c : UInt8) : Glob ps s → Glob (cQM :: ps) (c :: s)
   | lit {ps s : Bytes} (c : UInt8) : c ≠ cSTAR → c ≠ cQM → Glob ps s → Glob (c :: ps) (c :: s)
-
-/-- every suffix, including the empty one -/
-def anySuffix (f : Bytes → Bool) : Bytes → Bool
-  | [] => f []
-  | c :: cs => f (c :: cs) || anySuffix f cs
 
 /-- executable glob matcher (spec-shaped: `*` tries every suffix including the empty one) -/
 def globB : Bytes → Bytes → Bool
@@ -59,31 +53,6 @@ theorem anySuffix_iff (f : Bytes → Bool) (s : Bytes) :
         right
         simp at h
         exact ⟨u, t, h.2, ht⟩
-
-theorem anyNESuffix_iff (f : Bytes → Bool) (s : Bytes) :
-    anyNESuffix f s = true ↔ ∃ u t, s = u ++ t ∧ t ≠ [] ∧ f t = true := by
-  induction s with
-  | nil =>
-    simp only [anyNESuffix]
-    constructor
-    · intro h; cases h
-    · rintro ⟨u, t, h, hne, _⟩
-      have := congrArg List.length h
-      simp at this
-      exact absurd (List.eq_nil_of_length_eq_zero (by omega)) hne
-  | cons c cs ih =>
-    simp only [anyNESuffix, Bool.or_eq_true, ih]
-    constructor
-    · rintro (h | ⟨u, t, h, hne, ht⟩)
-      · exact ⟨[], c :: cs, rfl, by simp, h⟩
-      · exact ⟨c :: u, t, by simp [h], hne, ht⟩
-    · rintro ⟨u, t, h, hne, ht⟩
-      cases u with
-      | nil => left; simp at h; simpa [h] using ht
-      | cons d u =>
-        right
-        simp at h
-        exact ⟨u, t, h.2, hne, ht⟩
 
 theorem star_ne_qm : cSTAR ≠ cQM := by decide
 
@@ -130,61 +99,14 @@ theorem globB_iff (p s : Bytes) : globB p s = true ↔ Glob p s := by
           | qm c h => exact ⟨Or.inl rfl, (ih cs).2 h⟩
           | lit c _ _ h => exact ⟨Or.inr rfl, (ih cs).2 h⟩
 
-/-- the pattern whose glob language Go's `wildcardMatch` decides -/
-def lastFix (p : UInt8) : Bytes := if p == cSTAR then [cSTAR, cQM] else [p]
-
-def goPattern : Bytes → Bytes
-  | [] => []
-  | [p] => lastFix p
-  | p :: q :: r => p :: goPattern (q :: r)
-
-theorem goPattern_eq (p : Bytes) :
-    goPattern p = if p.getLast? = some cSTAR then p ++ [cQM] else p := by
-  fun_induction goPattern with
-  | case1 => simp
-  | case2 p =>
-    by_cases h : p = cSTAR <;> simp [h, lastFix]
-  | case3 p q r ih =>
-    rw [ih]
-    simp only [List.getLast?_cons_cons]
-    split <;> simp
-
-theorem globB_goPattern_nil (p : Bytes) (h : p ≠ []) : globB (goPattern p) [] = false := by
-  fun_induction goPattern with
-  | case1 => exact absurd rfl h
-  | case2 p =>
-    by_cases hp : p = cSTAR
-    · subst hp; simp [lastFix, globB, anySuffix]; decide
-    · have hb : (p == cSTAR) = false := by simpa using hp
-      simp [lastFix, hb, globB]
-  | case3 p q r ih =>
-    simp only [globB]
-    split
-    · simp only [anySuffix]; exact ih (by simp)
-    · rfl
-
-theorem anySuffix_qm (c : UInt8) (cs : Bytes) : anySuffix (globB [cQM]) (c :: cs) = true := by
-  induction cs generalizing c with
-  | nil => simp [anySuffix, globB]
-  | cons d ds ih =>
-    have := ih d
-    rw [anySuffix, this, Bool.or_true]
-
-theorem anySuffix_eq_anyNESuffix (f : Bytes → Bool) (hf : f [] = false) (s : Bytes) :
-    anySuffix f s = anyNESuffix f s := by
+theorem anySuffix_isEmpty (s : Bytes) : anySuffix (fun t => t.isEmpty) s = true := by
   induction s with
-  | nil => simp [anySuffix, anyNESuffix, hf]
-  | cons c cs ih => simp [anySuffix, anyNESuffix, ih]
+  | nil => simp [anySuffix]
+  | cons c cs ih => rw [anySuffix, ih, Bool.or_true]
 
-theorem wm_cons_nil (p : UInt8) (ps : Bytes) : wildcardMatch (p :: ps) [] = false := by
-  simp [wildcardMatch]
-
-theorem wm_star_last (c : UInt8) (cs : Bytes) : wildcardMatch [cSTAR] (c :: cs) = true := by
-  simp [wildcardMatch]
-
-theorem wm_star_cons (q : UInt8) (r : Bytes) (c : UInt8) (cs : Bytes) :
-    wildcardMatch (cSTAR :: q :: r) (c :: cs) = anyNESuffix (wildcardMatch (q :: r)) (c :: cs) := by
-  rw [wildcardMatch]; simp
+theorem wm_cons_nil (p : UInt8) (ps : Bytes) (hp : p ≠ cSTAR) : wildcardMatch (p :: ps) [] = false := by
+  have hb : (p == cSTAR) = false := by simpa using hp
+  simp [wildcardMatch, hb]
 
 theorem wm_nonstar (p : UInt8) (ps : Bytes) (c : UInt8) (cs : Bytes) (hp : p ≠ cSTAR) :
     wildcardMatch (p :: ps) (c :: cs) = ((p == cQM || p == c) && wildcardMatch ps cs) := by
@@ -193,136 +115,40 @@ theorem wm_nonstar (p : UInt8) (ps : Bytes) (c : UInt8) (cs : Bytes) (hp : p ≠
   simp only [hb, Bool.false_eq_true, if_false]
   cases (p == cQM || p == c) <;> simp
 
-theorem globB_nonstar (p : UInt8) (ps : Bytes) (c : UInt8) (cs : Bytes) (hp : p ≠ cSTAR) :
-    globB (p :: ps) (c :: cs) = ((p == cQM || p == c) && globB ps cs) := by
-  have hb : (p == cSTAR) = false := by simpa using hp
-  simp only [globB, hb, Bool.false_eq_true, if_false]
+theorem wildcardMatch_eq_globB (p s : Bytes) : wildcardMatch p s = globB p s := by
+  induction p generalizing s with
+  | nil => simp [wildcardMatch, globB]
+  | cons p ps ih =>
+    by_cases hp : p = cSTAR
+    · subst hp
+      have hfun : wildcardMatch ps = globB ps := funext ih
+      cases ps with
+      | nil =>
+        simp only [wildcardMatch, beq_self_eq_true, if_true, List.isEmpty_nil, globB]
+        exact (anySuffix_isEmpty s).symm
+      | cons q r =>
+        rw [wildcardMatch, globB]
+        simp only [beq_self_eq_true, if_true, List.isEmpty_cons, Bool.false_eq_true, if_false, hfun]
+    · cases s with
+      | nil =>
+        have hb : (p == cSTAR) = false := by simpa using hp
+        rw [wm_cons_nil p ps hp]; simp [globB, hb]
+      | cons c cs =>
+        have hb : (p == cSTAR) = false := by simpa using hp
+        rw [wm_nonstar _ _ _ _ hp, ih]
+        simp [globB, hb]
 
-theorem globB_star (ps s : Bytes) : globB (cSTAR :: ps) s = anySuffix (globB ps) s := by
-  simp [globB]
+/-- **wildcard_spec**: for every pattern and every string, Go's `wildcardMatch` accepts exactly the
+    OpenSSH glob language of the pattern (no exception). -/
+theorem wildcard_spec (p s : Bytes) : wildcardMatch p s = true ↔ Glob p s := by
+  rw [wildcardMatch_eq_globB, globB_iff]
 
-theorem wildcardMatch_eq_globB (p s : Bytes) : wildcardMatch p s = globB (goPattern p) s := by
-  fun_induction goPattern generalizing s with
-  | case1 => simp [wildcardMatch, globB]
-  | case2 p =>
-    cases s with
-    | nil =>
-      have := globB_goPattern_nil [p] (by simp)
-      simp only [goPattern] at this
-      rw [this, wm_cons_nil]
-    | cons c cs =>
-      by_cases hp : p = cSTAR
-      · subst hp
-        rw [wm_star_last]
-        simp only [lastFix, beq_self_eq_true, if_true]
-        rw [globB_star]
-        exact (anySuffix_qm c cs).symm
-      · have hb : (p == cSTAR) = false := by simpa using hp
-        simp only [lastFix, hb, Bool.false_eq_true, if_false]
-        rw [wm_nonstar _ _ _ _ hp, globB_nonstar _ _ _ _ hp]
-        simp [wildcardMatch, globB]
-  | case3 p q r ih =>
-    cases s with
-    | nil =>
-      have := globB_goPattern_nil (p :: q :: r) (by simp)
-      simp only [goPattern] at this
-      rw [this, wm_cons_nil]
-    | cons c cs =>
-      by_cases hp : p = cSTAR
-      · subst hp
-        have hfun : wildcardMatch (q :: r) = globB (goPattern (q :: r)) := funext ih
-        rw [wm_star_cons, globB_star, hfun]
-        exact (anySuffix_eq_anyNESuffix _ (globB_goPattern_nil (q :: r) (by simp)) _).symm
-      · rw [wm_nonstar _ _ _ _ hp, globB_nonstar _ _ _ _ hp, ih]
-
-/-- **wildcard_spec**: for every pattern and string, Go's `wildcardMatch` accepts exactly the glob language
-    of `goPattern p` — i.e. of `p` itself unless `p` ends in `*`, in which case of `p ++ "?"`. -/
-theorem wildcard_spec (p s : Bytes) :
-    wildcardMatch p s = true ↔ Glob (if p.getLast? = some cSTAR then p ++ [cQM] else p) s := by
-  rw [wildcardMatch_eq_globB, globB_iff, goPattern_eq]
-
-/-- patterns that do not end in `*` have exactly the OpenSSH glob semantics -/
-theorem wildcard_spec_no_trailing_star (p s : Bytes) (h : p.getLast? ≠ some cSTAR) :
-    wildcardMatch p s = true ↔ Glob p s := by
-  rw [wildcard_spec]; simp [h]
-
-theorem Glob_append_qm {p s : Bytes} (h : Glob (p ++ [cQM]) s) : Glob (p ++ [cSTAR]) s := by
-  generalize hq : p ++ [cQM] = q at h
-  induction h generalizing p with
-  | nil => simp at hq
-  | star u he h ih =>
-    cases p with
-    | nil => simp at hq; exact absurd hq.1.symm star_ne_qm
-    | cons x xs =>
-      simp at hq; obtain ⟨rfl, rfl⟩ := hq
-      exact Glob.star u he (ih rfl)
-  | qm c h ih =>
-    cases p with
-    | nil =>
-      simp at hq; subst hq
-      cases h
-      exact Glob.star [c] (by simp) Glob.nil
-    | cons x xs =>
-      simp at hq; obtain ⟨rfl, rfl⟩ := hq
-      exact Glob.qm c (ih rfl)
-  | lit c h1 h2 h ih =>
-    cases p with
-    | nil => simp at hq; exact absurd hq.1.symm h2
-    | cons x xs =>
-      simp at hq; obtain ⟨rfl, rfl⟩ := hq
-      exact Glob.lit _ h1 h2 (ih rfl)
-
-theorem Glob_star_idem {p s : Bytes} (h : Glob (p ++ [cSTAR, cSTAR]) s) : Glob (p ++ [cSTAR]) s := by
-  generalize hq : p ++ [cSTAR, cSTAR] = q at h
-  induction h generalizing p with
-  | nil => simp at hq
-  | star u he h ih =>
-    cases p with
-    | nil =>
-      simp at hq; subst hq
-      cases h with
-      | star v he2 h =>
-        cases h
-        exact Glob.star (u ++ v) (by simp [he, he2]) Glob.nil
-      | lit c h1 _ _ => exact absurd rfl h1
-    | cons x xs =>
-      simp at hq; obtain ⟨rfl, rfl⟩ := hq
-      exact Glob.star u he (ih rfl)
-  | qm c h ih =>
-    cases p with
-    | nil => simp at hq; exact absurd hq.1 star_ne_qm
-    | cons x xs =>
-      simp at hq; obtain ⟨rfl, rfl⟩ := hq
-      exact Glob.qm c (ih rfl)
-  | lit c h1 h2 h ih =>
-    cases p with
-    | nil => simp at hq; exact absurd hq.1.symm h1
-    | cons x xs =>
-      simp at hq; obtain ⟨rfl, rfl⟩ := hq
-      exact Glob.lit _ h1 h2 (ih rfl)
-
-/-- Go never accepts a host that the OpenSSH glob semantics rejects … -/
-theorem wildcard_sound (p s : Bytes) (h : wildcardMatch p s = true) : Glob p s := by
-  rw [wildcard_spec] at h
-  split at h
-  · rename_i hl
-    obtain ⟨q, rfl⟩ : ∃ q, p = q ++ [cSTAR] := by
-      rw [List.getLast?_eq_some_iff] at hl
-      exact hl
-    have h' : Glob ((q ++ [cSTAR]) ++ [cSTAR]) s := Glob_append_qm h
-    rw [List.append_assoc] at h'
-    exact Glob_star_idem h'
-  · exact h
-
-/-- … but it does reject hosts that OpenSSH accepts: a trailing `*` must consume at least one byte.
-    (`host*` does not match `host`; negated, `!host*` fails to exclude `host`.) -/
-theorem wildcard_trailing_star_gap :
-    Glob [104, cSTAR] [104] ∧ wildcardMatch [104, cSTAR] [104] = false := by
-  refine ⟨?_, by decide⟩
-  exact Glob.lit (ps := [cSTAR]) (s := []) 104 (by decide) (by decide) (Glob.star [] rfl Glob.nil)
+/-- a `*` may match the empty sequence, also at the end of the pattern: `h*` matches `h` … -/
+theorem wildcard_trailing_star_empty : wildcardMatch [104, cSTAR] [104] = true ∧ wildcardMatch [cSTAR] [] = true := by
+  decide
 
 example : wildcardMatch [104, 42, 116, 63, 46, 42] [104, 111, 115, 116, 49, 46, 99, 111, 109] = true := by decide  -- h*t?.* / host1.com
-example : wildcardMatch [cSTAR] [] = false := by decide
+example : wildcardMatch [104, 42, 116] [104, 111, 115, 116, 120] = false := by decide  -- h*t / hostx
 
 /-! ## 2. negation semantics of a pattern list -/
 
@@ -383,6 +209,10 @@ theorem negation_semantics (ps : List HostPattern) (a : Addr) :
 example : (Matcher.pats [⟨false, ⟨[cSTAR], port22⟩⟩, ⟨true, ⟨[97], port22⟩⟩]).matches ⟨[97], port22⟩ = false := by
   decide
 example : (Matcher.pats [⟨false, ⟨[cSTAR], port22⟩⟩, ⟨true, ⟨[97], port22⟩⟩]).matches ⟨[98], port22⟩ = true := by
+  decide
+
+/-- `*,!a*` excludes host `a` (the negated pattern's trailing `*` matches the empty rest) -/
+example : (Matcher.pats [⟨false, ⟨[cSTAR], port22⟩⟩, ⟨true, ⟨[97, cSTAR], port22⟩⟩]).matches ⟨[97], port22⟩ = false := by
   decide
 
 /-! ## 3. decisions -/
@@ -610,5 +440,179 @@ theorem cert_verdict_ok_or_reject (db : DB) (now : Int) (address remote : Bytes)
   simp only [DB.checkHostKey]
   repeat' split
   all_goals simp
+
+/-! ## 4. literal patterns, hashed entries -/
+
+/-- a pattern without `*` and `?` matches exactly itself -/
+theorem wildcard_literal (p s : Bytes) (h : ∀ c ∈ p, c ≠ cSTAR ∧ c ≠ cQM) :
+    wildcardMatch p s = true ↔ s = p := by
+  induction p generalizing s with
+  | nil => simp [wildcardMatch]
+  | cons c cs ih =>
+    have hc := h c (by simp)
+    have hcs : ∀ x ∈ cs, x ≠ cSTAR ∧ x ≠ cQM := fun x hx => h x (List.mem_cons_of_mem _ hx)
+    cases s with
+    | nil => simp [wm_cons_nil _ _ hc.1]
+    | cons d ds =>
+      rw [wm_nonstar _ _ _ _ hc.1]
+      have : (c == cQM) = false := by simpa using hc.2
+      simp only [this, Bool.false_or, Bool.and_eq_true, beq_iff_eq, ih ds hcs, List.cons.injEq]
+      constructor
+      · rintro ⟨rfl, rfl⟩; exact ⟨rfl, rfl⟩
+      · rintro ⟨rfl, rfl⟩; exact ⟨rfl, rfl⟩
+
+/-! ### base64 round trip (stand-in for encoding/base64) -/
+
+theorem b64Val_b64Enc : ∀ v : Fin 64, b64Val (b64Enc v.val) = some v.val := by decide
+
+theorem b64Enc_ne : ∀ v : Fin 64, b64Enc v.val ≠ cEQ ∧ b64Enc v.val ≠ cCR ∧ b64Enc v.val ≠ cLF ∧
+    b64Enc v.val ≠ cPIPE := by decide
+
+theorem b64Val_enc (v : Nat) (h : v < 64) : b64Val (b64Enc v) = some v := b64Val_b64Enc ⟨v, h⟩
+theorem b64Enc_ok (v : Nat) (h : v < 64) :
+    b64Enc v ≠ cEQ ∧ b64Enc v ≠ cCR ∧ b64Enc v ≠ cLF ∧ b64Enc v ≠ cPIPE := b64Enc_ne ⟨v, h⟩
+
+/-- characters of an encoding: never CR, LF or `|` -/
+theorem b64Encode_chars (x : Bytes) : ∀ c ∈ b64Encode x, c ≠ cCR ∧ c ≠ cLF ∧ c ≠ cPIPE := by
+  fun_induction b64Encode x with
+  | case1 => simp
+  | case2 a =>
+    have ha := a.toNat_lt
+    intro c hc
+    simp only [List.mem_cons, List.mem_nil_iff, or_false] at hc
+    rcases hc with rfl | rfl | rfl | rfl
+    · have := b64Enc_ok (a.toNat / 4) (by omega); exact ⟨this.2.1, this.2.2.1, this.2.2.2⟩
+    · have := b64Enc_ok (a.toNat % 4 * 16) (by omega); exact ⟨this.2.1, this.2.2.1, this.2.2.2⟩
+    · decide
+    · decide
+  | case3 a b =>
+    have ha := a.toNat_lt
+    have hb := b.toNat_lt
+    intro c hc
+    simp only [List.mem_cons, List.mem_nil_iff, or_false] at hc
+    rcases hc with rfl | rfl | rfl | rfl
+    · have := b64Enc_ok (a.toNat / 4) (by omega); exact ⟨this.2.1, this.2.2.1, this.2.2.2⟩
+    · have := b64Enc_ok (a.toNat % 4 * 16 + b.toNat / 16) (by omega); exact ⟨this.2.1, this.2.2.1, this.2.2.2⟩
+    · have := b64Enc_ok (b.toNat % 16 * 4) (by omega); exact ⟨this.2.1, this.2.2.1, this.2.2.2⟩
+    · decide
+  | case4 a b c rest ih =>
+    have ha := a.toNat_lt
+    have hb := b.toNat_lt
+    have hc' := c.toNat_lt
+    intro x hx
+    simp only [List.mem_cons] at hx
+    rcases hx with rfl | rfl | rfl | rfl | hx
+    · have := b64Enc_ok (a.toNat / 4) (by omega); exact ⟨this.2.1, this.2.2.1, this.2.2.2⟩
+    · have := b64Enc_ok (a.toNat % 4 * 16 + b.toNat / 16) (by omega); exact ⟨this.2.1, this.2.2.1, this.2.2.2⟩
+    · have := b64Enc_ok (b.toNat % 16 * 4 + c.toNat / 64) (by omega); exact ⟨this.2.1, this.2.2.1, this.2.2.2⟩
+    · have := b64Enc_ok (c.toNat % 64) (by omega); exact ⟨this.2.1, this.2.2.1, this.2.2.2⟩
+    · exact ih x hx
+
+theorem ofNat_toNat_u8 (a : UInt8) : UInt8.ofNat a.toNat = a := by simp
+
+theorem b64DecodeCore_encode (x : Bytes) : b64DecodeCore (b64Encode x) = some x := by
+  fun_induction b64Encode x with
+  | case1 => simp [b64DecodeCore]
+  | case2 a =>
+    have ha := a.toNat_lt
+    have h1 := b64Val_enc (a.toNat / 4) (by omega)
+    have h2 := b64Val_enc (a.toNat % 4 * 16) (by omega)
+    simp only [b64DecodeCore, beq_self_eq_true, List.isEmpty_nil, Bool.and_self, if_true, h1, h2]
+    have : a.toNat / 4 * 4 + a.toNat % 4 * 16 / 16 = a.toNat := by omega
+    rw [this, ofNat_toNat_u8]
+  | case3 a b =>
+    have ha := a.toNat_lt
+    have hb := b.toNat_lt
+    have h1 := b64Val_enc (a.toNat / 4) (by omega)
+    have h2 := b64Val_enc (a.toNat % 4 * 16 + b.toNat / 16) (by omega)
+    have h3 := b64Val_enc (b.toNat % 16 * 4) (by omega)
+    have hne : (b64Enc (b.toNat % 16 * 4) == cEQ) = false := by
+      simpa using (b64Enc_ok (b.toNat % 16 * 4) (by omega)).1
+    simp only [b64DecodeCore, hne, Bool.false_and, Bool.false_eq_true, if_false, beq_self_eq_true,
+      List.isEmpty_nil, Bool.and_self, if_true, h1, h2, h3]
+    have e1 : a.toNat / 4 * 4 + (a.toNat % 4 * 16 + b.toNat / 16) / 16 = a.toNat := by omega
+    have e2 : (a.toNat % 4 * 16 + b.toNat / 16) % 16 * 16 + b.toNat % 16 * 4 / 4 = b.toNat := by omega
+    rw [e1, e2, ofNat_toNat_u8, ofNat_toNat_u8]
+  | case4 a b c rest ih =>
+    have ha := a.toNat_lt
+    have hb := b.toNat_lt
+    have hc := c.toNat_lt
+    have h1 := b64Val_enc (a.toNat / 4) (by omega)
+    have h2 := b64Val_enc (a.toNat % 4 * 16 + b.toNat / 16) (by omega)
+    have h3 := b64Val_enc (b.toNat % 16 * 4 + c.toNat / 64) (by omega)
+    have h4 := b64Val_enc (c.toNat % 64) (by omega)
+    have hne3 : (b64Enc (b.toNat % 16 * 4 + c.toNat / 64) == cEQ) = false := by
+      simpa using (b64Enc_ok (b.toNat % 16 * 4 + c.toNat / 64) (by omega)).1
+    have hne4 : (b64Enc (c.toNat % 64) == cEQ) = false := by
+      simpa using (b64Enc_ok (c.toNat % 64) (by omega)).1
+    simp only [b64DecodeCore, hne3, hne4, Bool.false_and, Bool.false_eq_true, if_false, h1, h2, h3, h4, ih]
+    have e1 : a.toNat / 4 * 4 + (a.toNat % 4 * 16 + b.toNat / 16) / 16 = a.toNat := by omega
+    have e2 : (a.toNat % 4 * 16 + b.toNat / 16) % 16 * 16 + (b.toNat % 16 * 4 + c.toNat / 64) / 4 = b.toNat := by
+      omega
+    have e3 : (b.toNat % 16 * 4 + c.toNat / 64) % 4 * 64 + c.toNat % 64 = c.toNat := by omega
+    rw [e1, e2, e3, ofNat_toNat_u8, ofNat_toNat_u8, ofNat_toNat_u8]
+
+/-- **base64 round trip**: `DecodeString(EncodeToString(x)) = x` for the model's stand-in -/
+theorem b64_roundtrip (x : Bytes) : b64Decode (b64Encode x) = some x := by
+  unfold b64Decode
+  have : (b64Encode x).filter (fun c => !(c == cCR || c == cLF)) = b64Encode x := by
+    apply List.filter_eq_self.2
+    intro c hc
+    have := b64Encode_chars x c hc
+    simp [this.1, this.2.1]
+  rw [this, b64DecodeCore_encode]
+
+theorem splitBy_nosep (sep : UInt8) (a : Bytes) (h : ∀ c ∈ a, c ≠ sep) : splitBy sep a = [a] := by
+  induction a with
+  | nil => rfl
+  | cons c cs ih =>
+    have hc : (c == sep) = false := by simpa using h c (by simp)
+    simp [splitBy, hc, ih (fun x hx => h x (List.mem_cons_of_mem _ hx))]
+
+theorem splitBy_append_sep (sep : UInt8) (a rest : Bytes) (h : ∀ c ∈ a, c ≠ sep) :
+    splitBy sep (a ++ sep :: rest) = a :: splitBy sep rest := by
+  induction a with
+  | nil => simp [splitBy]
+  | cons c cs ih =>
+    have hc : (c == sep) = false := by simpa using h c (by simp)
+    simp [splitBy, hc, ih (fun x hx => h x (List.mem_cons_of_mem _ hx))]
+
+/-- **hash_matches**: the entry written by `HashHostname(host)` (any salt) parses as a hashed matcher,
+    and that matcher accepts an address iff HMAC-SHA1(salt, Normalize(addr)) = HMAC-SHA1(salt, host) —
+    in particular it accepts every address whose normal form is `host`. -/
+theorem hash_matches (salt host : Bytes) :
+    ∃ m, newHashedHost (hashHostname salt host) = some m ∧
+      (∀ a : Addr, m.matches a = (hashHost (normalize a.str) salt == hashHost host salt)) ∧
+      (∀ a : Addr, normalize a.str = host → m.matches a = true) := by
+  have hs := b64Encode_chars salt
+  have hh := b64Encode_chars (hashHost host salt)
+  have hsplit : splitBy cPIPE (hashHostname salt host) =
+      [[], [49], b64Encode salt, b64Encode (hashHost host salt)] := by
+    simp only [hashHostname, encodeHash, joinBy, List.nil_append]
+    rw [show cPIPE :: ([49] ++ cPIPE :: (b64Encode salt ++ cPIPE :: b64Encode (hashHost host salt)))
+        = [] ++ cPIPE :: ([49] ++ cPIPE :: (b64Encode salt ++ cPIPE :: b64Encode (hashHost host salt))) by rfl]
+    rw [splitBy_append_sep _ _ _ (by simp), splitBy_append_sep _ _ _ (by decide),
+      splitBy_append_sep _ _ _ (fun c hc => (hs c hc).2.2), splitBy_nosep _ _ (fun c hc => (hh c hc).2.2)]
+  have hhead : (hashHostname salt host).head? = some cPIPE := by
+    simp [hashHostname, encodeHash, joinBy]
+  refine ⟨.hashed salt (hashHost host salt), ?_, ?_, ?_⟩
+  · simp [newHashedHost, hhead, hsplit, b64_roundtrip]
+  · intro a; rfl
+  · intro a ha
+    simp [Matcher.matches, ha]
+
+/-- the full statement about `Line` (kept visible; covered differentially by the `lq` ops, not proved):
+    for addresses made of host/port characters, the line written by `Line` parses and its matcher accepts
+    every one of the addresses with the key it lists. -/
+def line_matches_own_host_full : Prop :=
+  ∀ (kt : KeyTab) (addrs : List Bytes) (ktype blob : Bytes) (id : Nat) (now : Int) (remote : Bytes),
+    kt.lookup blob = some (ktype, id) →
+    (∀ a ∈ addrs, ∃ h p, splitHostPort a = some (h, p) ∧ h ≠ [] ∧
+      ∀ c ∈ h ++ p, c ≠ cSP ∧ c ≠ cTAB ∧ c ≠ cCOMMA ∧ c ≠ cBANG ∧ c ≠ cSTAR ∧ c ≠ cQM ∧ c ≠ cLB ∧ c ≠ cRB ∧
+        c ≠ cAT ∧ c ≠ cHASH ∧ c ≠ cPIPE ∧ c ≠ cLF ∧ c ≠ cCR) →
+    (∀ c ∈ ktype, c ≠ cSP ∧ c ≠ cTAB) → ktype ≠ [] → addrs ≠ [] →
+    (splitHostPort remote).isSome →
+    ∃ db, readDB kt (knownHostsLine addrs ktype blob) = .ok db ∧
+      ∀ a ∈ addrs, db.checkHostKey now a remote (.plain id) = .ok
 
 end XC.C42
